@@ -364,6 +364,12 @@ class SigmaCondition(ProcessingItemTrackingMixin):
                 return parsed
         except ParseException as e:
             raise SigmaConditionError(str(e), source=self.source)
+        except RecursionError:
+            # The recursive descent of the parser (and of the tree it builds) runs out of stack on
+            # conditions nested some twenty levels deep.
+            raise SigmaConditionError(
+                "Condition is nested too deeply to be parsed", source=self.source
+            )
 
     @property
     def parsed(
